@@ -26,6 +26,7 @@ type c17case struct {
 	Kind    string `json:"kind,omitempty"`
 	M1, M2  string
 	Seed    int64 `json:"seed,omitempty"`
+	Warm    bool  `json:"warm,omitempty"` // M1 and M2 are also called once BEFORE Close (something remembered from then must not answer afterwards)
 }
 
 func c17cases(env *core.Env) []c17case {
@@ -36,6 +37,9 @@ func c17cases(env *core.Env) []c17case {
 				continue
 			}
 			for _, m1 := range c17methods {
+				if !strings.Contains(m1, "/") {
+					cs = append(cs, c17case{Part: "closed", Subject: s, Kind: k, M1: m1, M2: "H.Stat", Warm: true})
+				}
 				if strings.Contains(m1, "/") {
 					cs = append(cs, c17case{Part: "closed", Subject: s, Kind: k, M1: m1, M2: "H.Stat"})
 					continue
@@ -46,6 +50,11 @@ func c17cases(env *core.Env) []c17case {
 					}
 				}
 			}
+		}
+	}
+	for _, s := range populatedSubjects {
+		for i := 0; i < env.Pick(40, 600); i++ {
+			cs = append(cs, c17case{Part: "dirsiblings", Subject: s, Seed: int64(i)})
 		}
 	}
 	for _, s := range []string{"mem", "kvplain", "mount", "sub", "os"} {
@@ -62,7 +71,7 @@ func init() {
 		ID:    "C17",
 		Level: "exploration",
 		Rule: "(closed) for every FS kind (mem, keyvalue over a plain Store, mount, Sub, cache full/minimal store, tar default/minimal destination, os.FS) and handle kind (read-only, write-only, read-write, append, directory) the handle is closed and every ordered pair of the 11 methods is called on it: each call must return an error, never panic, and match ErrClosed wherever the same call on a closed *os.File does; " +
-			"(siblings) random scripts on 2..3 handles of one file record every other handle's offset and usability around each call; (lifecycle) random histories open 1..3 handles, Remove/Rename/re-create the path and write through the old handles: the old name must not exist again unless the history re-created it. Non-trivial: all cases (each makes >=2 calls on a closed or unlinked handle); distinct by case parameters",
+			"(closed, warm) each method is also called once before Close, so that nothing remembered from then answers afterwards; (siblings) random scripts on 2..3 handles of one file record every other handle's offset and usability around each call; (dirsiblings) 2..3 handles on one directory are paged, stat'ed and closed in random order on every FS kind and compared with os directory handles (page sizes as counts, complete listings as sets); (lifecycle) random histories open 1..3 handles, Remove/Rename/re-create the path and write through the old handles: the old name must not exist again unless the history re-created it. Non-trivial: all cases (each makes >=2 calls on a closed or unlinked handle); distinct by case parameters",
 		Assumptions: []string{"reference for ErrClosed expectations and for lifecycle outcomes is *os.File / the os package on Linux"},
 		NumCases:    func(env *core.Env) int { return len(c17cases(env)) },
 		Batch:       300,
@@ -135,6 +144,8 @@ func c17run(env *core.Env, idx int) core.CaseResult {
 		c17closed(env, cs, &res)
 	case "siblings":
 		c17siblings(env, cs, &res)
+	case "dirsiblings":
+		c17dirSiblings(env, cs, &res)
 	default:
 		c17lifecycle(env, cs, &res)
 	}
@@ -172,6 +183,14 @@ func c17closed(env *core.Env, cs c17case, res *core.CaseResult) {
 		return
 	}
 	defer rh.CloseAll()
+	if cs.Warm {
+		for _, m := range []string{cs.M1, cs.M2} {
+			if st := c17step(m); st.K != "H.Close" {
+				_ = fsx.Exec(sub.fs, st, &sh, nil)
+				_ = fsx.Exec(ref, st, &rh, nil)
+			}
+		}
+	}
 	sc := fsx.Exec(sub.fs, fsx.Step{K: "H.Close"}, &sh, nil)
 	_ = fsx.Exec(ref, fsx.Step{K: "H.Close"}, &rh, nil)
 	if !sc.OK() {
@@ -193,6 +212,9 @@ func c17closed(env *core.Env, cs c17case, res *core.CaseResult) {
 		}
 		detail := fmt.Sprintf("[%s, %s handle] %s after Close (%s): %s; closed os.File: %s", cs.Subject, cs.Kind, st, pos, sr, rr)
 		sigBase := fmt.Sprintf("C17|%s|%s|%s|", cs.Subject, cs.Kind, m)
+		if cs.Warm {
+			sigBase = fmt.Sprintf("C17|%s|%s|%s,called-before-close|", cs.Subject, cs.Kind, m)
+		}
 		switch {
 		case sr.Panic != "":
 			res.Violate(sigBase+"got=panic,want=error", detail, cs)
@@ -275,6 +297,93 @@ func c17siblings(env *core.Env, cs c17case, res *core.CaseResult) {
 				res.Violate(fmt.Sprintf("C17|%s|siblings|%s|offset", cs.Subject, st.K), fmt.Sprintf("[%s] after %s handle h%d moved from offset %d to %d", cs.Subject, st, other, offs[other], o), wit)
 				return
 			}
+		}
+	}
+}
+
+// c17dirSiblings: several handles on one directory are independent: paging through one does not move another's cursor,
+// closing one leaves the others usable. Differential against os directory handles (page contents are compared as
+// counts, complete listings as sets: the order of pages is the file system's own).
+func c17dirSiblings(env *core.Env, cs c17case, res *core.CaseResult) {
+	items := append([]treeItem(nil), c17items...)
+	for _, n := range []string{"d/y", "d/z", "d/w"} {
+		items = append(items, treeItem{Path: n, Perm: 0o644, Data: n})
+	}
+	sub, err := newPopulated(env, cs.Subject, items)
+	if err != nil {
+		res.Inconclusive = "setup: " + err.Error()
+		return
+	}
+	defer sub.cleanup()
+	ref, err := fsx.NewOSRef(env.Scratch)
+	if err != nil {
+		res.Inconclusive = err.Error()
+		return
+	}
+	defer ref.Cleanup()
+	if err := buildTree(ref, items); err != nil {
+		res.Inconclusive = err.Error()
+		return
+	}
+	r := rand.New(rand.NewSource(env.Seed*6_000_029 + cs.Seed))
+	nh := 2 + r.Intn(2)
+	var sh, rh fsx.Handles
+	defer sh.CloseAll()
+	defer rh.CloseAll()
+	var script []fsx.Step
+	do := func(st fsx.Step) (fsx.Result, fsx.Result) {
+		script = append(script, st)
+		return fsx.Exec(sub.fs, st, &sh, nil), fsx.Exec(ref, st, &rh, nil)
+	}
+	for s := 0; s < nh; s++ {
+		so, ro := do(fsx.Step{K: "Open", P: "d", Flag: os.O_RDONLY, Slot: s})
+		if !so.OK() || !ro.OK() {
+			return
+		}
+	}
+	paged := map[int]bool{}
+	for i := 0; i < 10+r.Intn(8); i++ {
+		st := fsx.Step{Slot: r.Intn(nh)}
+		switch r.Intn(7) {
+		case 0, 1:
+			st.K, st.N = "H.ReadDir", 1
+		case 2:
+			st.K, st.N = "H.ReadDir", 2
+		case 3:
+			st.K, st.N = "H.ReadDir", -1
+		case 4:
+			st.K = "H.Stat"
+		case 5:
+			st.K = "H.Close"
+		default:
+			st.K, st.N = "H.ReadDir", 0
+		}
+		sr, rr := do(st)
+		wasPaged := paged[st.Slot]
+		if st.K == "H.ReadDir" {
+			paged[st.Slot] = true // (which entries remain after a page depends on the file system's own order)
+		}
+		res.Count("dir_sibling_calls", 1)
+		wit := map[string]any{"subject": cs.Subject, "script": fsx.HistoryString(script)}
+		sig := func(what string) string { return fmt.Sprintf("C17|%s|dirsiblings|%s|%s", cs.Subject, st.K, what) }
+		if sr.Panic != "" {
+			res.Violate(sig("panic"), fmt.Sprintf("[%s] %s panicked: %s", cs.Subject, st, sr.Panic), wit)
+			return
+		}
+		if sr.Skip || rr.Skip {
+			continue
+		}
+		eofish := func(e string) bool { return e == "ok" || e == "EOF" }
+		switch {
+		case eofish(sr.Err) != eofish(rr.Err):
+			res.Violate(sig("got="+sr.Err+",want="+rr.Err), fmt.Sprintf("[%s] %s on one of %d handles of the same directory: %s; os directory handle: %s", cs.Subject, st, nh, sr, rr), wit)
+			return
+		case st.K == "H.ReadDir" && eofish(rr.Err) && sr.N != rr.N:
+			res.Violate(sig("count"), fmt.Sprintf("[%s] %s returned %d entries, the os directory handle with the same history %d (another handle of the directory was used in between)", cs.Subject, st, sr.N, rr.N), wit)
+			return
+		case st.K == "H.ReadDir" && st.N <= 0 && !wasPaged && eofish(rr.Err) && sr.Data != rr.Data:
+			res.Violate(sig("entries"), fmt.Sprintf("[%s] %s returned %q, os %q", cs.Subject, st, sr.Data, rr.Data), wit)
+			return
 		}
 	}
 }
